@@ -276,5 +276,10 @@ pub fn run(rec: &mut Rec) {
         batch::<S>(rec, ms);
         batch_pools::<S>(rec);
     });
+    // points on and near the Boolean hypercube
+    crate::special::hypercube::<SPst>(rec, "C02", &[2, 3]);
+    crate::special::hypercube::<SHyr>(rec, "C02", &[2, 4]);
+    crate::special::hypercube::<SMll>(rec, "C02", &[2, 3, 4]);
+    crate::special::hypercube::<SBrk>(rec, "C02", &[2, 3, 4]);
     crate::special::c02_special(rec);
 }
